@@ -132,7 +132,7 @@ class Recorder:
         def cb(response):
             f = self.by_stream.get(stream)
             seen = self._decoded[-1] if self._decoded else None
-            ok = (f is not None and seen is not None and not isinstance(response, Exception)
+            ok = (f is not None and seen is not None
                   and seen == (f.ver, f.stream, f.opcode, f.body)
                   and type(response).__name__ == f.expect
                   and getattr(response, "stream_id", f.stream) == f.stream)
